@@ -48,7 +48,7 @@ CLAIMED['C08'] = dict(tech='estimate-direction analysis: rounding-direction and 
     ref='DESIGN.md §4 C08')
 
 CLAIMED['C18'] = dict(tech='check-before-use dataflow on every __getitem__, sibling deviance on negative-index normalisation, linear-form pairing of exported extents and strides, format/itemsize/type table',
-    text='Static: for each of the 5 __getitem__ the accessor operand must be the variable that passed 0 <= i < len with len the __len__ quantity and negative indices normalised; '
+    text='Static: for each of the 5 __getitem__ the accessor operand must be the variable that passed 0 <= i < len with len the __len__ quantity and negative indices normalised, with no narrowing integer cast on the way; '
          'each 2-D export pairs extent columns() with stride size_of(T) and extent rows() with stride()*size_of(T); format, itemsize and pointer element type agree for the 5 buffer exports; '
          'null-view and writable-request refusals dominate every write to the view; no undischarged panic site in the binding (empty-matrix exports).',
     ref='DESIGN.md §4 C18')
